@@ -21,7 +21,7 @@ func init() {
 
 var c13OpNames = []string{"Bit", "Byte", "Uint8", "Int8", "Uint16", "Int16", "Uint32", "Uint32WithByteOrder", "Int32", "Int32WithByteOrder", "Uint64", "Uint64WithByteOrder",
 	"Int64", "Int64WithByteOrder", "Float32", "Float32WithByteOrder", "Float64", "Float64WithByteOrder", "String", "StringWithByteOrder", "Register", "DoubleRegister", "QuadRegister",
-	"ExtractFieldsStrict", "ExtractFieldsLenient"}
+	"ExtractFieldsStrict", "ExtractFieldsLenient", "FieldExtractFrom"}
 
 // strata: framing x fc x first operation kind: first draws of genC13.
 func strataC13(tier string) [][]int32 {
@@ -61,6 +61,18 @@ func genRdOp(t *Tape, kind int, start, qty int, server string, unit byte) rdOp {
 	o.High = t.Choose(2) == 1
 	o.Len = uint8(1 + t.Choose(min(250, 2*qty+2)))
 	o.Order = byteOrders[t.Choose(len(byteOrders))]
+	if kind == 25 {
+		f := genRegField(t, start+t.Choose(qty), 0)
+		f.ServerAddress, f.UnitID = server, unit
+		if int(f.Address) < start {
+			f.Address = uint16(start)
+		}
+		if (f.Type == modbus.FieldTypeUint16 || f.Type == modbus.FieldTypeInt16) && t.Chance(1, 2) {
+			f.ByteOrder = byteOrders[t.Choose(len(byteOrders))]
+		}
+		o.Field = []modbus.Field{f}
+		return o
+	}
 	if kind >= 23 {
 		n := 1 + t.Choose(6)
 		for i := 0; i < n; i++ {
@@ -158,6 +170,13 @@ func applyRdOp(regs *packet.Registers, resp packet.Response, start int, o rdOp, 
 		v, err = regs.DoubleRegister(a, o.Order)
 	case 22:
 		v, err = regs.QuadRegister(a, o.Order)
+	case 25:
+		// one field definition decoded from the caller's own Registers view (AsRegisters + Field.ExtractFrom)
+		if len(o.Field) == 0 {
+			return "no field"
+		}
+		f := o.Field[0]
+		v, err = f.ExtractFrom(regs)
 	case 23, 24:
 		br := modbus.BuilderRequest{StartAddress: uint16(start), Fields: o.Field}
 		if o.Breq != nil {
@@ -252,7 +271,7 @@ func runC13(rc *RunCtx) {
 				breq := reqs[0]
 				for r := range readers {
 					for i := range readers[r] {
-						if o := &readers[r][i]; o.Kind >= 23 {
+						if o := &readers[r][i]; (o.Kind == 23 || o.Kind == 24) {
 							fs := append([]modbus.Field(nil), breq.Fields...)
 							rot := t.Choose(len(fs))
 							fs = append(fs[rot:], fs[:rot]...)
@@ -422,7 +441,7 @@ func runC13(rc *RunCtx) {
 			fregs = fregs.WithByteOrder(viewOrder)
 		}
 		want := applyRdOp(fregs, fresh, start, ob.op, nil)
-		if ob.op.Kind >= 23 {
+		if ob.op.Kind == 23 || ob.op.Kind == 24 {
 			// a field's value must not depend on which other fields are extracted with it, nor on their order:
 			// expected = every field extracted alone, each from its own private copy
 			want = ""
@@ -443,7 +462,7 @@ func runC13(rc *RunCtx) {
 			}
 			want = fmt.Sprintf("%s err=%v", want, anyErr)
 		}
-		if ob.op.Kind >= 23 {
+		if ob.op.Kind == 23 || ob.op.Kind == 24 {
 			// what is compared is which (definition, value, failed) triples were reported: the order in which a list comes
 			// back and whether a definition listed twice is reported twice are not what this property is about; that identical
 			// calls return identical results is checked on the exact rendering below
@@ -465,7 +484,7 @@ func runC13(rc *RunCtx) {
 	}
 	// results handed out earlier still say what they said when they were returned
 	for _, ob := range observed {
-		if ob.op.Kind >= 23 && ob.held != nil {
+		if (ob.op.Kind == 23 || ob.op.Kind == 24) && ob.held != nil {
 			var e error
 			if ob.heldErr {
 				e = errors.New("failed")
